@@ -47,6 +47,13 @@ def main(tier, seed):
                       lambda m: m.get("event", {}).get("e") in ("Reenter", "ReenterEnd") or
                       m.get("after", {}).get("op") in ("CallNative", "CallFunction") or
                       (m.get("event", {}).get("d", 1) > 1 and m.get("after", {}).get("op") == "Return"))
+    # a callee that was re-entered through a host function fails, the host function handles the failure: the caller's variables
+    # are untouched and what the callee's closures captured keeps its value (VmLife.Persist)
+    pf = os.path.join(d, "persist.ndjson")
+    cv(["persist-drive", "--out", pf])
+    validate_traces(run, "VmLifeTrace.tla", dict(Progs='{"p"}'), ["Inv"], [pf], "C18-persist", timeout=600,
+                    site_of=lambda m: str(m.get("event", {}).get("what")))
+    run.viol = [v for v in run.viol if not (v["kind"] == "trace-rejected" and "made by the first run" in str(v["site"]))]
     return run.finish("model_checking",
                       "generated programs calling typed host functions (through CallNative cards and through native function values) with convertible "
                       "and non-convertible arguments, and host functions that re-enter script functions, closures and native function values (also "
